@@ -2,7 +2,7 @@
 RULE = ('every (entry point, parameter vector, input) inside the bound is executed: parameter vectors = 9 strategies + 16 levels with <= D '
         'deviations over {windowLog, minMatch, hashLog, chainLog, searchLog, targetLength, row finder, LDM, splitter, targetCBlockSize, maxBlockSize, '
         'literal mode, checksum, contentSize, magicless}; inputs = 3 base shapes of K segments with deviations over the LIT/REP/PAD alphabet (same budget D), '
-        'plus a block-type family (the first 2-3 blocks of the frame each one of 8 characters: three skewed byte alphabets differing in their top symbol, noise, two single-byte runs, words, a 12-symbol alphabet; first block exactly / one short / one over the block size; 8 entry points incl. CDict / loadDictionary), plus a long-length family (literal run or match of 65535..131075 bytes starting at / around a 128 KiB block edge, in blocks with few or ~350 other sequences, once or twice, splitter on/off) and all {a,b} strings of length <= L and a 256-byte text prefix + all {a,b} suffixes; distinct = distinct compressed outputs, non-trivial = output smaller than input')
+        'plus a block-type family (the first 2-3 blocks of the frame each one of 11 characters: three skewed byte alphabets differing in their top symbol, noise, two single-byte runs, almost a run (three stray bytes whose bits are subsets of those of the run byte), words, a 12-symbol alphabet; first block exactly / one short / one over the block size; 8 entry points incl. CDict / loadDictionary), plus a long-length family (literal run or match of 65535..131075 bytes starting at / around a 128 KiB block edge, in blocks with few or ~350 other sequences, once or twice, splitter on/off) and all {a,b} strings of length <= L and a 256-byte text prefix + all {a,b} suffixes; distinct = distinct compressed outputs, non-trivial = output smaller than input')
 
 
 def run(vc, tier):
